@@ -230,6 +230,15 @@ def lexer_specs(seed=0):
     S.append(LexSpec("amb_empty", None, [("re", "a*"), ("re", "b*")], "both match the empty string", "ambiguity"))
     S.append(LexSpec("amb_dot", None, [("re", "."), ("re", "é")], ". vs a 2-byte character", "ambiguity"))
     S.append(LexSpec("amb_neg_class", None, [("re", "[^a]"), ("re", "😀")], "negated class vs a 4-byte character", "ambiguity"))
+    # --- boundary families: each construct overlapping exactly at its boundary, with the disjoint neighbour further down ---
+    for nm, a, b in [("rep_min", "x{2,}", "x{2}"), ("rep_min3", "[a-z]{3,}", "[0-9a-f]{3}"), ("rep_max", "x{2,4}", "x{4}"), ("rep_lo", "x{2,4}", "x{2}"),
+                     ("rep_exact", "x{3}", "x{3}y?"), ("star0", "ab*", "a"), ("opt0", "ab?c", "ac"), ("plus1", "ab+", "ab"), ("cls_hi", "[a-m]", "m"),
+                     ("cls_lo", "[b-m]x", "bx"), ("alt_last", "(ab|cd|ef)", "ef"), ("neg_edge", "[^a-y]", "z"), ("nested_rep", "(ab){2,}", "abab"),
+                     ("dot_nl", "a.b", "a b")]:
+        S.append(LexSpec("amb_" + nm, None, [("re", a), ("re", b)], "boundary overlap", "ambiguity"))
+    for nm, a, b in [("rep_min", "x{3,}", "x{2}"), ("rep_max", "x{2,4}", "x{5}"), ("rep_lo", "x{2,4}", "x"), ("plus0", "ab+", "a"), ("cls_hi", "[a-m]", "n"),
+                     ("cls_lo", "[b-m]x", "ax"), ("neg_edge", "[^a-y]", "y"), ("nested_rep", "(ab){2,}", "ab"), ("dot_nl", "a.b", "a\\nb")]:
+        S.append(LexSpec("disj_" + nm, None, [("re", a), ("re", b)], "just outside the boundary"))
     # --- accepted: disjoint although close ---
     S.append(LexSpec("disj_unicode", None, [("re", "[éa]x"), ("re", "èx")], "é vs è: same first UTF-8 byte, different code points"))
     S.append(LexSpec("disj_ranges", None, [("re", "[a-m]+"), ("re", "[n-z]+"), ("re", "[0-9]+[a-z]")], ""))
